@@ -26,8 +26,8 @@ func envInt(name string, def int64) int64 {
 	return def
 }
 
-func seed() int64      { return envInt("VERIF_SEED", 1) }
-func thorough() bool   { return os.Getenv("VERIF_TIER") == "thorough" }
+func seed() int64    { return envInt("VERIF_SEED", 1) }
+func thorough() bool { return os.Getenv("VERIF_TIER") == "thorough" }
 func repoRoot() string { // only used to *read* corpus files
 	if s := os.Getenv("VERIF_REPO"); s != "" {
 		return s
